@@ -36,6 +36,7 @@ type ShapeCase struct {
 		Storage string `json:"storage"`
 		Trust   string `json:"trust"`
 		Wire    string `json:"wire"`
+		Order   string `json:"order"`
 	} `json:"shape"`
 	Admit        bool     `json:"admit"`
 	Submitted    []string `json:"submitted"`
@@ -51,7 +52,11 @@ func (c ShapeCase) fp() string {
 	if c.Shape.Storage == "direct" {
 		st = "direct"
 	}
-	return fmt.Sprintf("%s:%s:%s:%s:%s:%s", c.Shape.Kind, c.Shape.Iss, c.Shape.Tail, c.Shape.Quirk, c.Shape.Wire, st)
+	fp := fmt.Sprintf("%s:%s:%s:%s:%s:%s", c.Shape.Kind, c.Shape.Iss, c.Shape.Tail, c.Shape.Quirk, c.Shape.Wire, st)
+	if c.Shape.Order != "" && c.Shape.Order != "std" {
+		fp += ":" + c.Shape.Order
+	}
+	return fp
 }
 
 var quirkExt = map[string]pkix.Extension{
@@ -139,6 +144,9 @@ func TestShapes(t *testing.T) {
 			o := pki.Opts{CN: fmt.Sprintf("leaf %d", ci), DNS: []string{fmt.Sprintf("l%d.shapes.test", ci)}, KeyType: c.Shape.Key}
 			if c.Shape.Kind == "precert" {
 				o.Poison = "ok"
+			}
+			if c.Shape.Order != "" && c.Shape.Order != "std" {
+				o.ExtOrder = c.Shape.Order
 			}
 			if q, ok := quirkExt[c.Shape.Quirk]; ok {
 				o.Extra = append(o.Extra, q)
